@@ -1,11 +1,54 @@
 /-
-JSON form of a document (stub, replaced below).
+The JSON form of a document: `json.Marshal(doc)` → `json.Unmarshal(text, &any)` → `types.Marshal(any)`, the way
+the engine reads JSON.
+
+    null, booleans                     unchanged
+    Int*, Uint*                        a JSON number, read back as float64 (`f64OfInt`: exact up to 2^53)
+    Float64                            finite: unchanged (shortest decimal text parses back to the same float64);
+                                       NaN, ±Inf: `json.Marshal` fails → `none`
+    Float32                            `none`: its text is the shortest decimal *for float32*, whose float64 reading is
+                                       not modelled (the harness checks it on the real code only)
+    String                             valid UTF-8: unchanged; else `none` (Go substitutes U+FFFD – outside the guard)
+    Binary                             base64 text
+    Error                              its text
+    Slice                              element-wise
+    Map                                same keys (strings), values mapped – Range order only depends on the keys
+
+Core Lean only.
 -/
 import Uniflow.Model.Codec
 
 namespace Uniflow.Codec
 open Uniflow.Value
 
-def jsonForm (_ : Val) : Option Val := none
+mutual
+  def jsonForm : Val → Option Val
+    | .nil => some .nil
+    | .bool b => some (.bool b)
+    | .int _ v => (f64OfInt v).map .f64
+    | .uint _ v => (f64OfNat v).map .f64
+    | .f32 _ => none
+    | .f64 b => if finite64 b then some (.f64 b) else none
+    | .str s => if validUTF8 s then some (.str s) else none
+    | .bin bs => some (.str (b64enc bs))
+    | .err m => if validUTF8 m then some (.str m) else none
+    | .slice xs => (jsonFormL xs).map .slice
+    | .map ps => (jsonFormP ps).map .map
+  def jsonFormL : VList → Option VList
+    | .nil => some .nil
+    | .cons x xs =>
+      match jsonForm x, jsonFormL xs with
+      | some y, some ys => some (.cons y ys)
+      | _, _ => none
+  def jsonFormP : PList → Option PList
+    | .nil => some .nil
+    | .cons (.str k) v ps =>
+      if validUTF8 k then
+        match jsonForm v, jsonFormP ps with
+        | some y, some qs => some (.cons (.str k) y qs)
+        | _, _ => none
+      else none
+    | .cons _ _ _ => none
+end
 
 end Uniflow.Codec
